@@ -359,19 +359,42 @@ func rangerPools(c *an.Ctx, rule string) {
 		einfo := el.Info()
 		// role: the variables that receive getRanger's second result
 		releaseVars := map[types.Object]bool{}
+		errOf := map[types.Object]types.Object{} // release variable → the error that came with it
 		an.InspectOwn(el, func(nd ast.Node) bool {
 			if as, ok := nd.(*ast.AssignStmt); ok && len(as.Rhs) == 1 && len(as.Lhs) == 3 {
 				if call, ok := an.Unparen(as.Rhs[0]).(*ast.CallExpr); ok && an.IsCallTo(einfo, call, "jet.getRanger") {
 					if id, ok := as.Lhs[1].(*ast.Ident); ok {
 						releaseVars[an.ObjOf(einfo, id)] = true
 					}
+					if id, ok := as.Lhs[2].(*ast.Ident); ok {
+						errOf[an.ObjOf(einfo, as.Lhs[1].(*ast.Ident))] = an.ObjOf(einfo, id)
+					}
 				}
 			}
 			return true
 		})
-		bad, twice := token.NoPos, token.NoPos
+		bad, twice, unchecked := token.NoPos, token.NoPos, token.NoPos
 		nRel := 0
-		x := p.NewExplorer(el, an.Hooks{Call: func(x *an.Explorer, call *ast.CallExpr, s *an.State) {
+		errChecked := func(fun ast.Expr, s *an.State) bool {
+			id, ok := an.Unparen(fun).(*ast.Ident)
+			if !ok {
+				return true
+			}
+			e := errOf[an.ObjOf(einfo, id)]
+			return e == nil || an.FactIs(s, an.RoleOf(e)+" == nil", true)
+		}
+		x := p.NewExplorer(el, an.Hooks{Defer: func(x *an.Explorer, d *ast.DeferStmt, s *an.State) {
+			if id, ok := an.Unparen(d.Call.Fun).(*ast.Ident); ok && releaseVars[an.ObjOf(einfo, id)] {
+				nRel++
+				if !errChecked(d.Call.Fun, s) && !unchecked.IsValid() {
+					unchecked = d.Pos()
+				}
+				if s.Get("releaseDeferred") != "" && !twice.IsValid() {
+					twice = d.Pos()
+				}
+				s.Set("releaseDeferred", "1") // runs when the function returns: the ranger stays usable until then
+			}
+		}, Call: func(x *an.Explorer, call *ast.CallExpr, s *an.State) {
 			name := an.CalleeName(einfo, call)
 			isRelease := false
 			if id, ok := an.Unparen(call.Fun).(*ast.Ident); ok && releaseVars[an.ObjOf(einfo, id)] {
@@ -380,10 +403,14 @@ func rangerPools(c *an.Ctx, rule string) {
 			switch {
 			case name == "jet.getRanger":
 				s.Set("released", "")
+				s.Set("releaseDeferred", "")
 			case isRelease:
 				nRel++
-				if s.Get("released") != "" && !twice.IsValid() {
+				if (s.Get("released") != "" || s.Get("releaseDeferred") != "") && !twice.IsValid() {
 					twice = call.Pos()
+				}
+				if !errChecked(call.Fun, s) && !unchecked.IsValid() {
+					unchecked = call.Pos()
 				}
 				s.Set("released", "1")
 			case name == "(jet.Ranger).Range" || name == "(jet.Ranger).ProvidesIndex":
@@ -397,6 +424,8 @@ func rangerPools(c *an.Ctx, rule string) {
 		c.Expect(rule, "calls of the ranger release function (state visits)", nRel, 1)
 		c.Check(!bad.IsValid(), rule, "(*Runtime).executeList/no-use-after-cleanup", el.Pos(), "the ranger is not used after it was returned to its pool",
 			"the range arm calls the ranger after its release function returned it to the pool: another execution may already be using it")
+		c.Check(!unchecked.IsValid(), rule, "(*Runtime).executeList/release-after-error-check", el.Pos(), "the release function is called (or deferred) only after getRanger's error was found nil",
+			"the range arm calls or defers the release function before getRanger's error was checked: on the error path it is nil, the call panics with a runtime error and Execute panics instead of returning the range error")
 		c.Check(!twice.IsValid(), rule, "(*Runtime).executeList/release-once", el.Pos(), "the ranger is returned to its pool at most once",
 			"a path through the range arm calls the ranger's release function twice: the same object is put into the pool twice and later handed to two nested ranges at once, which then share one cursor")
 	}
